@@ -67,9 +67,6 @@ RULE = ("every public sparse operation (13 binary element-wise operations x {sca
 ASSUMPTIONS = [
     "values are small integers, so sums formed in different orders are the same double",
     "the plain constructor is given well-formed input (it stores what it is given; C06_ctor_keeps)",
-    "sptenmat.__setitem__ through sptensor.to_sptenmat (family order_independence) is inspected without the "
-    "no-explicit-zero clause; the family sptenmat_ops inspects it WITH the clause and reports the explicit zero an "
-    "assigned 0 leaves, and the pair a repeated key cell stores twice, as findings",
     "sptenmat.__setitem__ is modelled for Python int / float values and 1-d / column arrays with float stored values "
     "(NumPy integer scalars and matrix-shaped value arrays are refused or mis-read by the code: input validation, C19)",
 ]
@@ -443,7 +440,7 @@ OPS += [
        lambda A, B, p: (-A.to_sptenmat(np.array(p["r"], dtype=int)), +A.to_sptenmat(np.array(p["r"], dtype=int)),
                         A.to_sptenmat(np.array(p["r"], dtype=int)).copy()), None, public="sptenmat.__neg__"),
     Op("sptenmat.setitem", lambda rng, s: {"i": rng.randrange(s[0]), "j": rng.randrange(gen.numel(s[1:])), "v": rng.choice([5, -3])},
-       lambda A, B, p: _spm_setitem(A, p), None, no_zero=False, public="sptenmat.__setitem__"),
+       lambda A, B, p: _spm_setitem(A, p), None, public="sptenmat.__setitem__"),
     Op("sptenmat.from_array", _none,
        lambda A, B, p: ttb.sptenmat.from_array(A.to_sptenmat(np.array([0], dtype=int)).double(), np.array([0], dtype=int),
                                                np.arange(1, len(A.shape), dtype=int), tuple(A.shape)), None,
@@ -1385,7 +1382,7 @@ def rand_spm_part(rng, ext, want=None):
 
 
 def rand_spm_val(rng, n, zero=False, allow1d=True):
-    """a value for n cells; 1-d arrays / lists only where the code copes with them (see class vec-new)"""
+    """a value for n cells (allow1d=False keeps to numbers and columns)"""
     pool = [5, -3, 7, 2, -1]
     t = rng.choice(["int", "float", "col", "vec", "list"] if allow1d else ["int", "float", "col", "col"])
     if t in ("int", "float"):
@@ -1458,8 +1455,7 @@ class SptenmatOps(Family):
                     steps.append(self.clean_step(rng, nr, nc, stored_cells))
                 if klass == "zero":
                     key = [rand_spm_part(rng, nr), rand_spm_part(rng, nc)]
-                    steps.append({"key": key, "val": rand_spm_val(rng, self.count(key, nr, nc), zero=True,
-                                                                  allow1d=self.safe1d(key, nr, nc, stored_cells))})
+                    steps.append({"key": key, "val": rand_spm_val(rng, self.count(key, nr, nc), zero=True)})
                 elif klass == "vec-new":
                     # a 1-d value array for two or more pairs that are not stored, on an object that stores something
                     key = None
@@ -1477,7 +1473,7 @@ class SptenmatOps(Family):
                         key = [[rng.choice(["list", "arr"]), [i, i]], ["int", j]]
                     else:
                         key = [["list", [i]], [rng.choice(["list", "arr"]), [j, j]]]
-                    steps.append({"key": key, "val": rng.choice([{"t": "col", "v": [5, 6]}, {"t": "col", "v": [6, 5]}, {"t": "int", "v": 7}])})
+                    steps.append({"key": key, "val": rng.choice([{"t": "col", "v": [5, 6]}, {"t": "vec", "v": [6, 5]}, {"t": "list", "v": [5, 0]}, {"t": "int", "v": 7}])})
                 elif klass == "malformed":
                     steps.insert(rng.randrange(len(steps) + 1), self.bad_step(rng, nr, nc))
                 b["steps"] = steps
@@ -1491,7 +1487,8 @@ class SptenmatOps(Family):
 
     @staticmethod
     def safe1d(key, nr, nc, stored_cells):
-        """the code copes with a 1-d value array unless two or more pairs are appended to a non-empty object"""
+        """False for the requests that used to corrupt the object before commit 74ea9de (a 1-d value array for two
+        or more pairs appended to a non-empty object): the class vec-new aims at them"""
         rs, cs = spm_resolve(key[0], nr), spm_resolve(key[1], nc)
         new = sum(1 for j in cs or [] for i in rs or [] if (i, j) not in stored_cells)
         return not (new >= 2 and stored_cells)
@@ -1510,7 +1507,7 @@ class SptenmatOps(Family):
         else:
             key = [rand_spm_part(rng, nr), rand_spm_part(rng, nc)]
         rs, cs = spm_resolve(key[0], nr), spm_resolve(key[1], nc)
-        ok1d = self.safe1d(key, nr, nc, stored_cells)
+        ok1d = True
         for j in cs or []:
             for i in rs or []:
                 stored_cells.add((i, j))
@@ -1589,11 +1586,13 @@ class SptenmatOps(Family):
         if "ok" not in r:
             return Verdict("violation", f"sptenmat(): raised {r.get('exc')}: {r.get('msg')}", r, m, None, tags, False)
         r = r["ok"]
-        if r["nnz"] != 0 or r["nnz"] != m["nnz"]:
+        if r["nnz"] != 0:
             return Verdict("violation", f"sptenmat(): nnz reports {r['nnz']} for an object without stored entries "
                            f"({r['stored']} subscripts, {r['vals']} values)", r, m, {"nnz": 0}, tags, False)
         if r["norm"] != 0.0:
             return Verdict("violation", f"sptenmat(): norm {r['norm']} of an object without stored entries", r, m, None, tags, False)
+        if r["nnz"] != m["nnz"]:
+            return Verdict("corr", "sptenmat(): nnz differs from the model's", r, m, None, tags, False)
         return Verdict("ok", "", None, None, None, tags, False)
 
     # ---- copy / pos / neg / observers
@@ -1648,6 +1647,9 @@ class SptenmatOps(Family):
                 return Verdict("violation", f"{where}: to_sptensor is not the tensor of the matrix", stored(res["to_sptensor"]["ok"]), None, jval(X), tags)
             if res["iseq_self"]["ok"] is not True:
                 return Verdict("violation", f"{where}: not isequal to an identical object", None, None, None, tags)
+            if res["iseq_other"]["ok"] != bool(np.array_equal(D, spm_dense(c, c["other"]))):
+                return Verdict("violation", f"{where}: isequal({c['other']}) is {res['iseq_other']['ok']} although the matrices "
+                               f"{'are' if np.array_equal(D, spm_dense(c, c['other'])) else 'are not'} the same", None, None, None, tags)
             # across orders
             d = {k: denote(res[k]["ok"]) for k in ("copy", "neg", "to_sptensor")}
             d["copy-stored"] = stored(res["copy"]["ok"])      # sorted by np.unique: literally the same for every order
@@ -1676,7 +1678,7 @@ class SptenmatOps(Family):
                 return Verdict("corr", f"{where}: nnz / double / full / to_sptensor differ from the model's", obs, mo, None, tags)
             if res["norm"]["ok"] != math.sqrt(float(frac_of(m_obs["normsq"]))):
                 return Verdict("corr", f"{where}: norm differs from the root of the model's sum of squares", res["norm"]["ok"], m_obs["normsq"], None, tags)
-            if res["iseq_self"]["ok"] != m_eqs["equal"] or res["iseq_other"]["ok"] != m_eqo["equal"]:
+            if {"equal": res["iseq_self"]["ok"]} != m_eqs.get("ok") or {"equal": res["iseq_other"]["ok"]} != m_eqo.get("ok"):
                 return Verdict("corr", f"{where}: isequal differs from the model's", [res["iseq_self"]["ok"], res["iseq_other"]["ok"]],
                                [m_eqs, m_eqo], None, tags)
         return Verdict("ok", "", None, None, None, tags, n >= 2)
@@ -1687,7 +1689,7 @@ class SptenmatOps(Family):
         for o, r, m in runs:
             if "ok" not in r:
                 return Verdict("violation", f"sptenmat.isequal: raised {r.get('exc')}: {r.get('msg')}", r, m, None, tags)
-            if r["ok"] != m["equal"]:
+            if {"equal": r["ok"]} != m.get("ok"):
                 return Verdict("corr", f"sptenmat.isequal (receiver in order {o}): differs from the model's", r["ok"], m, None, tags)
         for o, r, m in runs:
             if r["ok"] is not True:
@@ -1728,6 +1730,10 @@ class SptenmatOps(Family):
                 tags.append("writes:" + ("none" if not cells else "stored" if all(hit) else "new" if not any(hit) else "both"))
                 tags.append("cells:" + ("1" if len(cells) == 1 else "0" if not cells else "several"))
                 tags.append("val:" + st["val"]["t"])
+                if any(v == 0 for _, _, v in w):
+                    tags.append("assigns-zero")
+                if len(set(cells)) < len(cells):
+                    tags.append("cell-twice:" + ("stored" if any(hit) else "new"))
                 for q in st["key"]:
                     tags.append("key:" + q[0])
                 D = D.copy()
@@ -1737,7 +1743,7 @@ class SptenmatOps(Family):
             else:
                 tags.append("refused")
             Ds.append(D)
-        expected, other = [], []   # findings of the class the case was built for / anything else
+        other = []
         first = None
         for o, steps, m in runs:
             ms = m["steps"]
@@ -1753,24 +1759,13 @@ class SptenmatOps(Family):
                         other.append(("corr", f"sptenmat.__setitem__: {where}: the model accepts", st["after"], mk_))
                     continue
                 if not st["accepted"]:
-                    if klass == "vec-new" and c["steps"][k]["val"]["t"] in ("vec", "list") and not deep_eq(st["after"], st["before"]):
-                        expected.append(("violation", f"sptenmat.__setitem__: 1-d value array: {where} raised {st['exc']} after the "
-                                         f"subscripts were appended: {len(st['after']['subs'])} subscripts for {len(st['after']['vals'])} values",
-                                         st["after"], mk_))
-                    else:
-                        other.append(("violation", f"sptenmat.__setitem__: {where}: raised {st['exc']}: {st['msg']}", None, mk_))
+                    other.append(("violation", f"sptenmat.__setitem__: {where}: raised {st['exc']}: {st['msg']}"
+                                  + ("" if deep_eq(st["after"], st["before"]) else f" and left {len(st['after']['subs'])} subscripts for "
+                                     f"{len(st['after']['vals'])} values"), st["after"], mk_))
                     break
-                dup = st["wf"] == "a subscript is stored twice"
                 if st["wf"]:
-                    if st["wf"] == "an explicit zero is stored":
-                        (expected if klass == "zero" else other).append(
-                            ("violation", f"sptenmat.__setitem__: explicit zero: {where} leaves an explicit zero stored", st["after"], mk_))
-                    elif dup:
-                        (expected if klass == "repeat" else other).append(
-                            ("violation", f"sptenmat.__setitem__: a pair is stored twice: {where}", st["after"], mk_))
-                    else:
-                        other.append(("violation", f"sptenmat.__setitem__: {where}: object not well-formed: {st['wf']}", st["after"], mk_))
-                if not dup and not np.array_equal(st["dense"], Dk):
+                    other.append(("violation", f"sptenmat.__setitem__: {where}: object not well-formed: {st['wf']}", st["after"], mk_))
+                if not np.array_equal(st["dense"], Dk):
                     other.append(("violation", f"sptenmat.__setitem__: {where}: the matrix afterwards is not the assignment applied to "
                                   "the matrix before", st["after"], jval(Dk)))
                 if "ok" not in mk_ or not deep_eq(st["after"], mk_["ok"]):
@@ -1778,13 +1773,13 @@ class SptenmatOps(Family):
             # (a refused request that changed the object is reported above; its debris is not compared across orders)
             d = [(False, "changed", None) if not st["accepted"] and not deep_eq(st["after"], st["before"]) else
                  (st["accepted"], sorted_entries(st["after"]["subs"], st["after"]["vals"]),
-                  (st["after"]["subs"], st["after"]["vals"]) if ap and klass != "repeat" else None) for st, ap in zip(steps, appended)]
+                  (st["after"]["subs"], st["after"]["vals"]) if ap else None) for st, ap in zip(steps, appended)]
             if first is None:
                 first = d
             elif d != first:
                 other.append(("violation", f"sptenmat.__setitem__: {where0}: acceptance or stored triples differ from those for another "
                               "stored order", d, first))
-        for status, what, impl, model in other + expected:
+        for status, what, impl, model in other:
             return Verdict(status, what, impl, model, None, tags)
         return Verdict("ok", "", None, None, None, tags, n >= 2 and any(sp is not None for sp in spec))
 
